@@ -42,9 +42,8 @@ ASSUMPTIONS = [
     "DIVISION BY ZERO: `scalar division denotes the matrix operation` has no instance for the divisor 0 (there is no matrix M / 0, an "
     "operator with inf / nan coefficients denotes no matrix): op / z for an exact zero z must raise whatever op is (term, sum, empty sum, "
     "numpy-typed coefficients), and no operation on finite operands whose matrix result is representable may return a non-finite "
-    "coefficient.  Generated zeros: 0, 0.0, 0j, -0.0, complex(-0.0, -0.0), False, Fraction(0).  NOT generated: numpy zeros as DIVISOR "
-    "(np.float64(0), np.complex128(0), numpy integer / bool_ zeros): the unchanged library returns inf / nan operators (and the empty sum "
-    "unchanged) there because 1.0 / <numpy zero> warns instead of raising -- reported as a genuine defect of PauliTerm / PauliSum.__truediv__",
+    "coefficient.  Generated zeros: 0, 0.0, 0j, -0.0, complex(-0.0, -0.0), False, Fraction(0), np.float64(0), "
+    "np.complex128(0) (numpy zeros returned inf / nan operators until the repair 609ad0a in /repo: 1.0 / <numpy zero> warns instead of raising)",
     "NUMBER TYPES (established on the unchanged library, kind `ladder`): a COEFFICIENT may be any Python / numpy scalar, a Fraction or a "
     "real sympy number and + - * / ** simplify() are defined on it (the arithmetic is the type's own: only values whose intermediates "
     "are exact in the narrowest type are generated; sympy a+b*I and products of two sympy-complex RESULTS are not -- numpy cannot "
@@ -1831,10 +1830,9 @@ def _accum_case(rng, tier, route=None, mode=None):
 
 
 DIV_ZEROS = [("int", "0"), (None, "0.0"), ("complex", "0j"), ("negzero", "-0.0"), ("negzeroj", "complex(-0.0, -0.0)"), ("bool", "False"),
-             ("fr", "Fraction(0)")]
-# NOT generated: numpy zeros as divisors (np.float64(0), np.complex128(0), np.int64(0), np.bool_(False) ...): 1.0 / <numpy zero> is inf
-# with a RuntimeWarning instead of ZeroDivisionError and the UNCHANGED library returns operators with inf / nan coefficients there
-# (reported as a genuine defect; see ASSUMPTIONS)
+             ("fr", "Fraction(0)"), ("npfloat", "np.float64(0)"), ("npcomplex", "np.complex128(0)")]
+# numpy zeros as divisors were not generated while the library returned operators with inf / nan coefficients for them (1.0 / <numpy
+# zero> is inf with a RuntimeWarning); repaired in /repo (609ad0a), np.float64(0) / np.complex128(0) are generated like every other zero
 
 
 def _divzero_case(rng, tier, zero=None, operand=None):
